@@ -731,12 +731,18 @@ func (e *kvElection) endCancelledRun(run context.Context) {
 // store that implements RevisionDeleter the look and the delete are one atomic
 // step (repeated if the record moved in between, e.g. by an own refresh whose
 // answer was lost); otherwise the delete follows the look as closely as it can.
-func (e *kvElection) deleteOwnRecord(token string) error {
+func (e *kvElection) deleteOwnRecord(ctx context.Context, token string) error {
 	var lastErr error
 	for attempt := 0; attempt < 3; attempt++ {
+		if ctx.Err() != nil {
+			return ctx.Err()
+		}
 		entry, err := e.kv.Get(e.key)
 		if err != nil {
 			return err
+		}
+		if ctx.Err() != nil {
+			return ctx.Err()
 		}
 		var payload leadershipPayload
 		if entry == nil || json.Unmarshal(entry.Value(), &payload) != nil ||
@@ -913,6 +919,11 @@ func (e *kvElection) StopWithContext(ctx context.Context, opts StopOptions) erro
 		}
 	}
 
+	// The time-out is one budget for the whole call: the wait for the run's
+	// goroutines, the deletion of the record and the wait for OnDemote share it.
+	budget := time.NewTimer(timeout)
+	defer budget.Stop()
+
 	done := make(chan struct{})
 	go func() {
 		wg.Wait()
@@ -921,7 +932,7 @@ func (e *kvElection) StopWithContext(ctx context.Context, opts StopOptions) erro
 
 	select {
 	case <-done:
-	case <-time.After(timeout):
+	case <-budget.C:
 		log := e.getLogger()
 		log.Warn("shutdown_timeout",
 			append(e.logWithContext(ctx),
@@ -957,7 +968,35 @@ func (e *kvElection) StopWithContext(ctx context.Context, opts StopOptions) erro
 	)
 
 	if opts.DeleteKey && wasLeader {
-		if err := e.deleteOwnRecord(token); err != nil {
+		// The store calls of the deletion take no context: they run on a
+		// goroutine of their own so that a store that does not answer cannot
+		// keep this call beyond its time-out. Once the call has given up, the
+		// deletion starts no further store operation.
+		delCtx, delCancel := context.WithCancel(context.Background())
+		defer delCancel()
+		delDone := make(chan error, 1)
+		go func() { delDone <- e.deleteOwnRecord(delCtx, token) }()
+		var err error
+		select {
+		case err = <-delDone:
+		case <-budget.C:
+			log := e.getLogger()
+			log.Warn("shutdown_timeout",
+				append(e.logWithContext(ctx),
+					zap.Duration("timeout", timeout),
+				)...,
+			)
+			return fmt.Errorf("shutdown timeout exceeded: %v", timeout)
+		case <-ctx.Done():
+			log := e.getLogger()
+			log.Warn("shutdown_cancelled",
+				append(e.logWithContext(ctx),
+					zap.Error(ctx.Err()),
+				)...,
+			)
+			return ctx.Err()
+		}
+		if err != nil {
 			log := e.getLogger()
 			log.Warn("key_deletion_failed",
 				append(e.logWithContext(ctx),
@@ -1003,7 +1042,7 @@ func (e *kvElection) StopWithContext(ctx context.Context, opts StopOptions) erro
 
 				select {
 				case <-done:
-				case <-time.After(timeout):
+				case <-budget.C:
 					log.Warn("ondemote_callback_timeout",
 						append(e.logWithContext(ctx),
 							zap.Duration("timeout", timeout),
